@@ -39,6 +39,7 @@ class S(vlib.Spec):
         8: "a warning was not shown",
         10: "the plugin process outlived thriftgo after the time limit",
         11: "the AST thriftgo holds after a compressed send is not the one it had before",
+        12: "hasDataTrailerFeature answers differently from 'all requested feature bits are set'",
     }
     modelled = ("plugin/plugin.go ParseCompactArguments, Pack, Lookup split, external.Execute error mapping, appendDataTrailer, hasDataTrailerFeature, "
                 "compress/decompress/collectThriftInclude; plugin/marshal.go; Response/Generated.FastRead statement by statement; Request/AST FastAppend+FastRead as "
@@ -95,7 +96,8 @@ class S(vlib.Spec):
         return {2: "C11-unmarshalled-request-differs", 3: "C11-compressed-request-differs",
                 4: "C11-bytes-do-not-conform-to-schema", 5: "C11-parameters-differ-from-command-line",
                 6: "C11-plugin-failure-not-reported", 7: "C11-contents-not-in-output", 8: "C11-warning-not-shown",
-                10: "C11-plugin-outlives-thriftgo", 11: "C11-ast-not-restored-after-compressed-send"}.get(code, "C11-code-%d" % code)
+                10: "C11-plugin-outlives-thriftgo", 11: "C11-ast-not-restored-after-compressed-send",
+                12: "C11-trailer-feature-test"}.get(code, "C11-code-%d" % code)
 
     def search(self, ctx):
         return None
